@@ -187,7 +187,7 @@ LEVELS = {
         note='Trusted: Coq kernel, pyfacts.py, extraction (ExtrOcamlBasic) + OCaml driver, Python harness. Not covered: re-entrant step()/run() from inside actions, NaN/off-grid times.'),
     'C07': dict(
         text='Machine-checked Coq theorems characterising pause/unpause/cancel on an arbitrary environment state (exact queue/paused contents, remaining delay equation, '
-             'idempotence, cancelled-never-runs over all continuations; over whole steps: a pending event loses exactly the elapsed time, a paused one loses nothing, an event is dispatched when its remaining delay reaches zero - Proofs/EnvRem.v); tied to /repo by fact tables and lock-step correspondence.',
+             'idempotence, cancelled-never-runs over all continuations; over whole steps: a pending event loses exactly the elapsed time, a paused one loses nothing, an event is dispatched when its remaining delay reaches zero - Proofs/EnvRem.v; over any history of events, calls and runs an event fires after exactly its delay of time spent pending, Proofs/EnvOpTime.v); tied to /repo by fact tables and lock-step correspondence.',
         design_ref='DESIGN.md sections 0.3 and 8, C07', technique='Coq proof (operation characterisations + invariant over all continuations) + lock-step correspondence',
         note='Trusted: as C01. asset_id=None no-op calls not modelled.'),
     'C09': dict(
@@ -251,7 +251,7 @@ LEVELS = {
         design_ref='DESIGN.md sections 0.3 and 8, C03', technique='Coq proof (wake-up lemmas; device/event-queue link invariant over a two-level step decomposition with compound steps) + lock-step correspondence + liveness monitor at every clock advance',
         note='Partial: stability of refusals between signals and termination are not theorems.'),
     'C06': dict(
-        text='PARTIAL. Machine-checked: timer = accept time + max(0, cycle + offset) under the device id, offset one-shot, FINISH requires exactly the part in process on an operational device, shutdown pauses / failure cancels (also during a shutdown: repaired defect D4), resumed events keep remaining delay and cancelled events never run (C07); and the queue-level invariant for every exception-free reachable state including every state inside a run: exactly one live FINISH_PROCESSING event per part in process (pending or paused), none otherwise; over whole steps the remaining time of a pending timer decreases by exactly the elapsed time, a paused timer loses nothing, and a timer fires when its remaining time reaches zero (Proofs/EnvRem.v). The composition of these into the whole-run exact-timing arithmetic is decided by the cycle-time monitor + lock-step.',
+        text='PARTIAL. Machine-checked: timer = accept time + max(0, cycle + offset) under the device id, offset one-shot, FINISH requires exactly the part in process on an operational device, shutdown pauses / failure cancels (also during a shutdown: repaired defect D4), resumed events keep remaining delay and cancelled events never run (C07); and the queue-level invariant for every exception-free reachable state including every state inside a run: exactly one live FINISH_PROCESSING event per part in process (pending or paused), none otherwise; over whole steps the remaining time of a pending timer decreases by exactly the elapsed time, a paused timer loses nothing, and a timer fires when its remaining time reaches zero (Proofs/EnvRem.v); composed over whole histories: a timer with r left fires after exactly r of time in which it was not paused, whatever happens in between (Proofs/EnvOpTime.v, FloorOpTime.v). That the timer is paused exactly while the processor is shut down, and the whole-run exact-timing arithmetic is decided by the cycle-time monitor + lock-step.',
         design_ref='DESIGN.md sections 0.3 and 8, C06', technique='Coq proof (timer and interruption lemmas + C07 event-queue theorems + device/event-queue count invariant over a step decomposition with local blocks) + lock-step correspondence + cycle-time monitor',
         note='Partial: the arithmetic composition over a run is not a single theorem; sources are outside the count invariant (their cycle timer is covered by the local lemmas and the monitor).'),
     'C08': dict(
